@@ -48,6 +48,8 @@ enum Ev {
     OtherRequesterFu(usize),
     /// Announce from a lower-numbered port of our own clock on the same segment
     SiblingAnnounce,
+    /// the transmit timestamp of the PREVIOUS request, reported only now (timestamps late, in order)
+    StaleTxTs,
 }
 
 impl Check for C14 {
@@ -102,6 +104,23 @@ impl Check for C14 {
         let mut recoveries = 0u64;
         let mut late_meas = 0u64;
         let mut pending_ctx: Option<u64> = None;
+        let mut stale_ctx: Option<(u64, u128)> = None;
+        let mut last_t1: u128 = 0;
+        // one run in a thousand starts just before the 16-bit sequence id of the requests wraps
+        let wrap = ch.chance(S_CFG, 1, 1000);
+        if wrap {
+            let n = 65536 - ch.range(S_CFG, 1, 2) as usize;
+            for k in 0..n {
+                w.host_call(0, 0, HostCall::Timer(T_DELAY), ch);
+                if k % 512 == 0 {
+                    w.emitted.clear();
+                    w.nodes[0].ports[0].pending_ctx.clear();
+                }
+            }
+            w.emitted.clear();
+            w.nodes[0].ports[0].pending_ctx.clear();
+            w.out.probe("pdelay_sequence_id_about_to_wrap");
+        }
         for r in 0..n_req {
             // responders for this request
             let n_resp = 1 + ch.weighted(S_WORK, &[3, 2]);
@@ -146,6 +165,9 @@ impl Check for C14 {
             if ch.chance(S_WORK, 1, 6) {
                 evs.push(Ev::SiblingAnnounce);
             }
+            if r > 0 && ch.chance(S_WORK, 1, 2) {
+                evs.push(Ev::StaleTxTs);
+            }
             ch.shuffle(S_WORK, &mut evs);
             evs.insert(0, Ev::Timer);
 
@@ -160,7 +182,18 @@ impl Check for C14 {
                 let mut second_responder_now = false;
                 let mut was_clean_exchange_event = false;
                 match &e {
+                    Ev::StaleTxTs => {
+                        if let Some((c, t)) = stale_ctx.take() {
+                            script.push(format!("late TX timestamp of the previous request (t1={t})"));
+                            w.host_call(0, 0, HostCall::TxTimestamp(c, t), ch);
+                        }
+                    }
                     Ev::Timer => {
+                        // a timestamp of the previous request that was never reported may still come
+                        if let Some(c) = pending_ctx.take() {
+                            stale_ctx = Some((c, last_t1));
+                        }
+                        last_t1 = t1;
                         let n0 = w.emitted.len();
                         w.host_call(0, 0, HostCall::Timer(T_DELAY), ch);
                         for em in &w.emitted[n0..] {
